@@ -256,8 +256,18 @@ func readDB(path string) (map[string]string, string, string) {
 		path, ok2 := o["path"].(string)
 		_, hasName := o["name"]
 		_, hasPath := o["path"]
-		if !hasName || !hasPath || o["name"] == nil || o["path"] == nil {
+		if !hasName || !hasPath {
+			// Go's encoding/json matches field names case-insensitively ("patH" is accepted as
+			// "path"): a differently-cased key is neither clearly valid nor clearly missing
+			for k := range o {
+				if strings.EqualFold(k, "name") && !hasName || strings.EqualFold(k, "path") && !hasPath {
+					return nil, "unknown", raw
+				}
+			}
 			return nil, "invalid", raw // missing field
+		}
+		if o["name"] == nil || o["path"] == nil {
+			return nil, "invalid", raw // null field
 		}
 		if !ok1 || !ok2 {
 			return nil, "invalid", raw // wrong type: does not decode into a string field
